@@ -10,6 +10,7 @@ import (
 	"go/ast"
 	"strings"
 
+	"verif/extract/cmd/perc/lsmfacts"
 	"verif/extract/elib"
 )
 
@@ -299,9 +300,13 @@ func main() {
 		}
 	}
 
+	// ---------------------------------------------------------------- LSM decisions (C19: the lock
+	// column rewrites one internal key per user key; same rules and names as extract/cmd/lsm)
+	lsmfacts.Extract(o)
+
 	f := o.Facts
 	lean := fmt.Sprintf(`-- GENERATED by /verif/extract/cmd/perc from the current /repo working tree. Do not edit.
-import NoKVModel.Perc.Model
+import NoKVModel.Perc.Phys
 
 namespace NoKV.Generated.Perc
 open NoKV NoKV.Perc
@@ -312,10 +317,23 @@ def percCfg : PercCfg :=
     commitChecksRollback := %s, conflictOp := %s,
     rollbackChecksOwner := %s, ttlOp := %s, ttlOverflowGuard := %s, minCommitOp := %s }
 
+def lsmCfg : NoKV.Lsm.Cfg :=
+  { l0SearchDir := .%s, tieRule := .%s, crossPick := .%s, levelOrder := .%s,
+    ingestOrder := .%s, immOrder := .%s, mergeKeeps := .%s,
+    compactTopOrder := .%s, overlapRightKey := .%s, plainKeyLimit := %s,
+    zeroVersionFound := %s }
+
+/-- what C19 depends on -/
+def c19Cfg : NoKV.Perc.Phys.C19Cfg := ⟨percCfg, lsmCfg⟩
+
 end NoKV.Generated.Perc
 `, f["get.skipsRollback"], f["get.skipsLock"], f["scan.skipsRollback"], f["scan.skipsLock"],
 		f["scan.seesLockOnlyKeys"], elib.LeanOp(f["get.lockOp"]), elib.LeanOp(f["scan.lockOp"]), elib.LeanOp(f["get.tsOp"]), elib.LeanOp(f["scan.verOp"]),
 		f["commit.checksRollback"], elib.LeanOp(f["prewrite.conflictOp"]),
-		f["rollback.checksOwner"], elib.LeanOp(f["ttl.op"]), f["ttl.overflowGuard"], elib.LeanOp(f["commit.minCommitOp"]))
+		f["rollback.checksOwner"], elib.LeanOp(f["ttl.op"]), f["ttl.overflowGuard"], elib.LeanOp(f["commit.minCommitOp"]),
+		f["lsm.l0SearchDir"], f["lsm.tieRule"], f["lsm.crossPick"], f["lsm.levelOrder"],
+		f["lsm.ingestOrder"], f["lsm.immOrder"], f["merge.eqKeeps"],
+		f["lsm.compactTopOrder"], f["lsm.overlapRightKey"], f["db.plainKeyLimit"],
+		map[string]string{"found": "true", "lost": "false"}[f["lsm.zeroVersion"]])
 	o.Write(*jsonOut, *leanOut, lean)
 }
